@@ -15,6 +15,11 @@ Sub-spaces (each enumerated completely):
               x 6 intervals
   small-full  as small-core with <= 3 slots x all 44 interval/direction pairs that keep the pitches used within two
               accidentals (thorough); quick runs the hash block VERIF_SEED % 64 of it
+  long        magnitude dimension of the small scores: every regular pattern (one slot, or two different slots,
+              repeated; untied / every common pitch tied across, e.g. one tie chain through the whole part) as a
+              part of 30, 120 and 500 slots (= time points) x bare / decorated x 5 argument kinds, the time
+              scale (2 or 20160 divisions per quarter, first slot at 0 or at 2**31+1 divisions) and the interval
+              cycled; quick runs the diagonal block VERIF_SEED % 10 (every pattern x every length once)
   note        transpose_note / step2pc for all steps x alterations x 39 interval classes (upward)
   interval    Interval(number, quality, direction).semitones for the 39 classes
   localkey    process_local_key for 42 key names x 14 degrees x 5 accidental prefixes
@@ -39,6 +44,7 @@ RULE = (
     "grid: one case per (interval class, direction, argument kind, octave triple), all in-range pitches of the "
     "triple in one part; tie-spell: one case per (interval class, direction, argument kind[, group of three sounding "
     "pitches]), all in-range chains one after the other in one part; small: one case per (slot sequence, ties, decoration, argument kind, interval); "
+    "long: one case per (pattern, tied?, number of slots, decoration, argument kind), scale and interval cycled; "
     "note/localkey/roman: one case per interval class / (key, degree) with all remaining coordinates looped "
     "inside; non-trivial = at least one pitched note (or one in-range combination) was compared"
 )
@@ -59,12 +65,18 @@ ASSUMPTIONS = [
     "bass notes: any chord quality is accepted - the bass must lie a third (3-4 semitones), fifth (6-8) or "
     "seventh (9-11) above the root on the right letter; an AssertionError of transpose_note is accepted where "
     "one of these needs more than two accidentals",
+    "long parts: the statement puts no bound on the length of a score, the space long stops at 500 time points because "
+    "transpose() copies with copy.deepcopy under a recursion limit of 10000 frames and these parts need 12-16 "
+    "frames per time point (measured: RecursionError from 620-830 time points on, a defect reported in "
+    "proposed_fixes/C16-NOTES.md with C16-s-long-timeline-recursion.diff; M.LONG_N_PENDING holds the lengths to add "
+    "to M.LONG_N once it is repaired); times are Python ints in the point list, so no dtype limits the scale/offset",
     "mc/ir.py builds the arguments through Part.add and attribute links; mc/fingerprint.py reads instance "
     "dictionaries and the point array",
 ]
 CHUNK = 6
 
 B_TIE3 = 4    # blocks of the thorough three-note enharmonic tie chain space
+B_LONG = 10   # blocks of the thorough long-part space (one per (decoration, argument kind) diagonal)
 B_SMALL = 64  # blocks of the thorough small-score space; quick adds block seed % B_SMALL to its core
 
 
@@ -144,6 +156,29 @@ def _small_block(b):
     return lambda: _small_full(b)
 
 
+def _long_cases(block=None):
+    """every (pattern, length, decoration, argument kind); the time scale and the interval are cycled with the
+    indices. Block b = the diagonal (pattern index + 3 * length index + combination index) % 10 == b, which
+    holds every (pattern, length) pair exactly once and every (length, decoration, argument kind) triple with
+    9-10 patterns."""
+    assert set(CORE_INTERVALS) <= set(M.admissible_intervals())
+    for bi, (base, tied) in enumerate(M.long_bases()):
+        for ni, n in enumerate(M.LONG_N):
+            for deco in (0, 1):
+                for k, kind in enumerate(M.ARGKINDS):
+                    ci = deco * len(M.ARGKINDS) + k
+                    if block is not None and (bi + 3 * ni + ci) % B_LONG != block:
+                        continue
+                    d, off = M.LONG_SCALES[(bi + ni + ci) % len(M.LONG_SCALES)]
+                    iv = CORE_INTERVALS[(bi + 2 * ni + ci) % len(CORE_INTERVALS)]
+                    yield {"space": "long", "base": list(base), "tied": tied, "n": n, "deco": deco, "arg": kind,
+                           "d": d, "off": off, "iv": list(iv)}
+
+
+def _long_block(b):
+    return lambda: _long_cases(b)
+
+
 def _note_cases():
     for n, q, _ in M.interval_classes():
         yield {"space": "note", "iv": [n, q]}
@@ -210,6 +245,21 @@ def spaces(tier, seed):
                          "hash block %d of %d of the thorough space small-full (%s)" % (seed % B_SMALL, B_SMALL, full)))
     else:
         out.append(Space("small-full", _small_full, True, full))
+    assert B_LONG == 2 * len(M.ARGKINDS)
+    long_ = ("long instances of the small scores: all %d regular patterns (every sequence of one slot or of two different "
+             "slots out of the 8 slot kinds, repeated to the length; no ties / every pitch common to adjacent slots tied across, "
+             "which makes tie chains through the whole part) x %s slots (one time point and one quarter per slot) x bare/decorated "
+             "x 5 argument kinds; cycled with the indices, not multiplied: time scale %s (divisions per quarter, time of the "
+             "first slot) and the %d intervals of small-core" % (
+                 len(M.long_bases()), "/".join(map(str, M.LONG_N)), ", ".join("(%d, %d)" % sc for sc in M.LONG_SCALES),
+                 len(CORE_INTERVALS)))
+    if tier == "quick":
+        out.append(Space("long-block", _long_block(seed % B_LONG), True,
+                         "diagonal block %d of %d of the thorough space long: every (pattern, length) pair once, with the "
+                         "(decoration, argument kind) combination (pattern index + 3 x length index + %d) mod 10 (%s)" % (
+                             seed % B_LONG, B_LONG, seed % B_LONG, long_)))
+    else:
+        out.append(Space("long", _long_cases, True, long_))
     return out
 
 
@@ -405,6 +455,8 @@ def eval_case(case):
         return _eval_small(case)
     if sp == "tiespell":
         return _eval_tiespell(case)
+    if sp == "long":
+        return _eval_long(case)
     if sp == "note":
         return _eval_note(case)
     if sp == "interval":
@@ -501,6 +553,18 @@ def _eval_small(case):
     kinds = sorted(set(roles.values()))
     res.nontrivial = bool(roles) or case["arg"] in ("score2", "group")
     res.outcome = "small %s roles=%s" % (out, ",".join(kinds) or "none")
+    return res
+
+
+def _eval_long(case):
+    res = CaseResult(states=0, transitions=0, traces=1)
+    seq, ties = M.long_structure(tuple(case["base"]), case["tied"], case["n"])
+    spec, roles = M.small_spec(seq, ties, case["deco"], d=case["d"], offset=case["off"])
+    other, other_roles = M.other_spec()
+    out = _check_transposition(res, case["arg"], spec, other, tuple(case["iv"]), dict(other_roles, **roles))
+    kinds = sorted(set(roles.values()))
+    res.nontrivial = bool(roles) or case["arg"] in ("score2", "group")
+    res.outcome = "long %s n=%d roles=%s" % (out, case["n"], ",".join(kinds) or "none")
     return res
 
 
